@@ -609,7 +609,8 @@ class Session(Gen):
             # a submission is still in the channel's queue when the server's close is read (socket
             # events come first in a batch): the wake-up for it arrives after the slot is gone
             self.op("send %s send %s" % (h, hx(amqp.body(ch, b"in-queue"))))
-        self.feed([chan_close(ch, self.rng.choice([404, 406, 403]), self.rng.choice(["NOT_FOUND - no queue 'x'", "", "é"]))])
+        # any reply code the server likes: the usual soft errors, and codes outside the 0-9-1 tables
+        self.feed([chan_close(ch, self.rng.choice([404, 406, 403, 404, 406, 200, 0, 299, 311, 65535]), self.rng.choice(["NOT_FOUND - no queue 'x'", "", "é"]))])
         if pending:
             self.op("ev %d" % ch)
         self.op("recv %s -" % h)
@@ -663,7 +664,7 @@ class Session(Gen):
         self.closed = True
 
     def a_server_conn_close(self):
-        tail = [conn_close(self.rng.choice([320, 402, 501, 541]), self.rng.choice(["CONNECTION_FORCED - broker forced connection closure", "", "bye"]))]
+        tail = [conn_close(self.rng.choice([320, 402, 501, 541, 200, 0, 65535]), self.rng.choice(["CONNECTION_FORCED - broker forced connection closure", "", "bye"]))]
         if self.rng.random() < 0.3:
             tail.append(heartbeat())
         self.feed(tail)
@@ -809,7 +810,7 @@ def id_lifecycle_cases(rng, chmax, length, stride=1, offset=0, prefix="i"):
     on a connection with `channel_max` = chmax (every `stride`-th), a call left in flight on each
     channel that stays open, then every open channel gets its own, distinguishable reply."""
     import itertools
-    alpha = ["none"] + ["some%d" % k for k in range(1, chmax + 1)] + ["close%d" % k for k in range(1, chmax + 1)]
+    alpha = ["none"] + ["some%d" % k for k in range(1, chmax + 1)] + ["close%d" % k for k in range(1, chmax + 1)] + ["sclos%d" % k for k in range(1, chmax + 1)]
     cases = []
     for n, seq in enumerate(itertools.product(alpha, repeat=length)):
         if (n + offset) % stride:
@@ -825,6 +826,14 @@ def id_lifecycle_cases(rng, chmax, length, stride=1, offset=0, prefix="i"):
                 if got is not None:
                     g.bind_opened(h, got)
                     by_ch[got] = h
+            elif o.startswith("sclos"):
+                # the server closes channel k (if open): the client answers CloseOk, the id is free again
+                k = int(o[5:])
+                if k in by_ch:
+                    h = by_ch.pop(k)
+                    g.feed([chan_close(k, 406, "PRECONDITION_FAILED")]); g.op("recv %s -" % h)
+                    del g.handles[h]
+                    al.remove(k)
             else:
                 k = int(o[5:])
                 if k in by_ch:
@@ -842,6 +851,70 @@ def id_lifecycle_cases(rng, chmax, length, stride=1, offset=0, prefix="i"):
             g.op("recv %s -" % by_ch[k]); g.op("recv %s -" % by_ch[k])
         g.op("dump")
         cases.append(g.case("%s%d" % (prefix, n)))
+    return cases
+
+
+def burst_cases(rng, prefix="u"):
+    """Hundreds of frames readable in ONE wake-up (one `feed` + one readable event), then a quiet
+    server: every frame is acted on in that wake-up - the socket is edge-triggered, nobody comes back."""
+    cases = []
+    for k, (ndeliv, nbody) in enumerate([(100, 0), (45, 1), (1, 300), (60, 3)]):
+        g = Gen(rng, chmax=2, bound=4, via_stream=1.0)
+        h1 = g.open_channel(1); g.bind_opened(h1, 1)
+        h2 = g.open_channel(2); g.bind_opened(h2, 2)
+        cl = g.consume(h1, "t1")
+        data = b""
+        for i in range(ndeliv):
+            frs = [g.use(deliver(1, "t1", i + 1, False, "", "k")), g.use(header(1, nbody * 20))] + [g.use(body(1, bytes([65 + (i + j) % 26]) * 20)) for j in range(nbody)]
+            data += b"".join(f.bytes for f in frs)
+        # a reply for the other channel rides at the very end of the burst
+        g.op("send %s send %s" % (h2, hx(amqp.client_only_samples(2)["basic.qos"]))); g.op("ev 2")
+        data += g.use(simple_ok(2, "basic.qos-ok")).bytes
+        cut = rng.choice([len(data), 997, 4096])
+        evs = ["c:" + data[a:a + cut].hex() for a in range(0, len(data), cut)]
+        g.op("feed " + " ".join(evs)); g.op("ev stream r")
+        g.op("recv %s -" % h2)
+        for i in range(ndeliv + 1):
+            g.op("crecv " + cl)
+        g.finish()
+        cases.append(g.case("%s%d" % (prefix, k)))
+    return cases
+
+
+def frames_then_fault_cases(rng, prefix="z"):
+    """Complete frames and then the end of the stream / an I/O error / an unparsable frame, all
+    readable in one wake-up: the frames ahead of the fault are acted on (a server Connection.Close
+    followed at once by a hang-up is still a server close), then the fault is reported."""
+    cases = []
+    n = 0
+    for fault in ("eof", "err", "err:reset", "bad"):
+        for lead in ("conn-close", "deliveries", "chan-close", "reply"):
+            g = Gen(rng, chmax=2, bound=4, via_stream=1.0)
+            h1 = g.open_channel(1); g.bind_opened(h1, 1)
+            cl = g.consume(h1, "t1")
+            g.op("send %s send %s" % (h1, hx(amqp.client_only_samples(1)["queue.declare"]))); g.op("ev 1")
+            if lead == "conn-close":
+                frs = [g.use(conn_close(320, "CONNECTION_FORCED"))]
+            elif lead == "deliveries":
+                frs = [g.use(f) for f in g.deliver(cl, size=3, style="one") + g.deliver(cl, size=0)]
+            elif lead == "chan-close":
+                frs = [g.use(chan_close(1, 404, "NOT_FOUND"))]
+            else:
+                frs = [g.use(queue_declare_ok(1, "q", 1, 1)), g.use(heartbeat())]
+            data = b"".join(f.bytes for f in frs)
+            if fault == "bad":
+                bad = heartbeat().bytes[:-1] + b"\x00"
+                g.use(Fr(bad, ["bad"])); g.frames[-1].dec = ["bad"]
+                g.op("feed c:" + (data + bad).hex())
+            else:
+                g.op("feed c:%s %s" % (data.hex(), fault))
+            g.op("ev stream r")
+            g.op("recv %s -" % h1); g.op("recv %s -" % h1)
+            g.op("crecv " + cl); g.op("crecv " + cl); g.op("crecv " + cl)
+            g.op("done")
+            g.finish()
+            n += 1
+            cases.append(g.case("%s%d" % (prefix, n)))
     return cases
 
 
